@@ -22,6 +22,13 @@ namespace rkcommon {
     struct Observable
     {
       Observable() = default;
+      // registrations belong to the object, not to its value: a copy starts
+      // without observers, an assignment keeps the target's own observers
+      Observable(const Observable &) {}
+      Observable &operator=(const Observable &)
+      {
+        return *this;
+      }
       virtual ~Observable();
 
       void notifyObservers();
